@@ -5,8 +5,10 @@ package checks
 
 import (
 	"bytes"
+	"encoding/asn1"
 	"encoding/json"
 	"fmt"
+	"math/big"
 	"os"
 	"reflect"
 	"strings"
@@ -40,6 +42,11 @@ type c17Pool struct {
 	// private objects that were built through the setters before)
 	nomeasCBOR [][]byte
 	nomeasJSON [][]byte
+	// tokens in which a key occurs twice (the plain decoders take them), and
+	// long valid tokens for the validating decoders to chew on meanwhile
+	dupCBOR  [][]byte
+	dupCOSE  [][]byte
+	longCBOR [][]byte
 }
 
 type c17Spec struct {
@@ -159,6 +166,49 @@ func buildPool(sp c17Spec) (*c17Pool, error) {
 			}
 		}
 	}
+	// shared decoded Evidence whose ECDSA signature is the ASN.1 DER form of
+	// (r, s) (decodes; never verifies)
+	for i := 0; i < 3; i++ {
+		kp := keyFor(icose.ES256, i)
+		pay := baseValid(P2, i).WireBytes()
+		prot := icose.ProtectedAlg(kp.Alg)
+		if sig, err := icose.Sign(kp.Alg, kp.Priv, prot, pay); err == nil {
+			type rs struct{ R, S *big.Int }
+			h := len(sig) / 2
+			if der, err := asn1.Marshal(rs{new(big.Int).SetBytes(sig[:h]), new(big.Int).SetBytes(sig[h:])}); err == nil {
+				if ev, err := psatoken.DecodeEvidenceFromCOSE(icbor.Encode(icose.Envelope(prot, icbor.Map(), pay, der))); err == nil {
+					p.evs = append(p.evs, ev)
+					p.evKeys = append(p.evKeys, kp)
+				}
+			}
+		}
+	}
+	for i := 0; i < 3; i++ {
+		for _, pr := range []Prof{P1, P2} {
+			m := baseValid(pr, i)
+			n := m.WireNode()
+			d1 := icbor.Map(append(append([][2]*icbor.Node{}, n.Pairs...), icbor.P(icbor.I(-70001), icbor.U(1)), icbor.P(icbor.I(-70001), icbor.U(2)))...)
+			d2 := icbor.Map(append(append([][2]*icbor.Node{}, n.Pairs...), n.Pairs[len(n.Pairs)-1])...)
+			for _, d := range []*icbor.Node{d1, d2} {
+				b := icbor.Encode(d)
+				p.dupCBOR = append(p.dupCBOR, b)
+				kp := keyFor(icose.EdDSA, 0)
+				if tok, err := icose.SignedToken(kp.Alg, kp.Priv, b); err == nil {
+					p.dupCOSE = append(p.dupCOSE, tok)
+				}
+			}
+			big := m.Clone()
+			for len(big.Comps) < 200 {
+				big.Comps = append(big.Comps, big.Comps...)
+			}
+			if pr == P1 {
+				big.NoMeas = nil
+			}
+			if len(big.Comps) > 0 {
+				p.longCBOR = append(p.longCBOR, big.WireBytes())
+			}
+		}
+	}
 	for _, flag := range []uint64{1, 1, 5} {
 		for v := 0; v < 3; v++ {
 			nm := baseValid(P1, v)
@@ -206,7 +256,7 @@ type c17Op struct {
 	A, B int
 }
 
-var c17Kinds = []string{"reuse", "reuse", "ext-dec-cbor", "ext-dec-json", "ext-bad", "ext-bad", "synth", "synth", "new", "dec-cbor", "dec-json", "dec-cose", "validate", "getter", "getters", "enc-cbor", "enc-json", "venc-cbor", "venc-json",
+var c17Kinds = []string{"ev-verify-all", "ev-verify-all", "claims-read-all", "dec-dup", "dec-dup", "dec-val-long", "dec-val-long", "reuse", "reuse", "ext-dec-cbor", "ext-dec-json", "ext-bad", "ext-bad", "synth", "synth", "new", "dec-cbor", "dec-json", "dec-cose", "validate", "getter", "getters", "enc-cbor", "enc-json", "venc-cbor", "venc-json",
 	"ev-json", "ev-verify", "ev-ids", "sign", "vsign", "setters", "serialize", "populate"}
 
 func idx(n, k int) int { return ((k % n) + n) % n }
@@ -328,6 +378,43 @@ func runOp(p *c17Pool, o c17Op) string {
 		want, _ := psatoken.EncodeClaimsToCBOR(c)
 		return fmt.Sprintf("payload-equal=%v verifies=%v self-verifies=%v", bytes.Equal(parts.Payload, want),
 			icose.Verify(k.Alg, k.Pub, parts.Protected, parts.Payload, parts.Signature), ev.Verify(k.Pub) == nil)
+	case "ev-verify-all":
+		// every shared Evidence, with its own key and one other: whatever a
+		// first use does to an object, some other goroutine's first use of
+		// the same object is unordered with it
+		var sb strings.Builder
+		for i, ev := range p.evs {
+			fmt.Fprintf(&sb, "%v%v,", ev.Verify(p.evKeys[i].Pub) == nil, ev.Verify(p.keys[idx(len(p.keys), o.B+i)].Pub) == nil)
+		}
+		return sb.String()
+	case "claims-read-all":
+		var sb strings.Builder
+		for _, c := range p.claims {
+			b, err := psatoken.EncodeClaimsToCBOR(c)
+			fmt.Fprintf(&sb, "%s/%x/%v;", errClass(c.Validate()), b, err != nil)
+		}
+		return sb.String()
+	case "dec-dup":
+		// the non-validating decoders on a token in which a key occurs twice
+		c, err := psatoken.DecodeClaimsFromCBOR(p.dupCBOR[idx(len(p.dupCBOR), o.A)])
+		r := "err"
+		if err == nil {
+			r = ObserveGetters(c)
+		}
+		ev := &psatoken.Evidence{}
+		if uerr := ev.UnmarshalCOSE(p.dupCOSE[idx(len(p.dupCOSE), o.B)]); uerr != nil {
+			return r + "/err"
+		}
+		return r + "/" + ObserveGetters(ev.Claims)
+	case "dec-val-long":
+		// the validating decoders on a long valid token
+		b := p.longCBOR[idx(len(p.longCBOR), o.A)]
+		c, err := psatoken.DecodeAndValidateClaimsFromCBOR(b)
+		if err != nil {
+			return "err:" + err.Error()
+		}
+		scs, _ := c.GetSoftwareComponents()
+		return fmt.Sprintf("%T/%d", c, len(scs))
 	case "reuse":
 		// a private object built through the setters (profile 1 with the
 		// no-measurements flag asserted through SetSoftwareComponents(nil),
@@ -517,6 +604,20 @@ func TestC17_Concurrent(t *testing.T) {
 							usersC[o.A%8] = map[int]bool{}
 						}
 						usersC[o.A%8][g] = true
+					case "ev-verify-all":
+						for k := 0; k < 8; k++ {
+							if usersE[k] == nil {
+								usersE[k] = map[int]bool{}
+							}
+							usersE[k][g] = true
+						}
+					case "claims-read-all":
+						for k := 0; k < 8; k++ {
+							if usersC[k] == nil {
+								usersC[k] = map[int]bool{}
+							}
+							usersC[k][g] = true
+						}
 					case "ev-json", "ev-verify", "ev-ids":
 						if usersE[o.A%8] == nil {
 							usersE[o.A%8] = map[int]bool{}
